@@ -21,7 +21,8 @@ PROP = 'C07'
 RULE = ('cells = (transform in {DWT1D fwd/inv, DWT2D fwd/inv, SWT, DTCWT fwd/inv}, configuration (wavelet x '
         'mode x J | filter pair x J), spatial shape incl. odd, N in {1,2,3,5}, C in {1,2,3,4,7}); per cell the '
         'taint certificate, superposition with random scalars, T(0), slice-by-slice vs batched, leak test; '
-        'distinct by (cell, check); non-trivial when inputs are dense random')
+        'distinct by (cell, check); non-trivial when inputs are dense random'
+        '; plus cells with 16..65 channels or batch items; non-finite values in neighbouring slices; scalars 1e-12 / 1e12; slices of magnitude 1e-9 .. 1e9')
 ASSUMPTIONS = ['float64', 'bounds 64*eps*gain*max|x|; bit-identity of batched vs per-slice results is reported, not demanded']
 TIMEOUT = {'quick': 900, 'thorough': 3300}
 WORKER_BUDGET = {'quick': 600, 'thorough': 2700}
